@@ -58,8 +58,18 @@ fn native_misc_registry0() -> Vec<(&'static str, fn(&mut crate::src::EnumSrc))> 
         ("ntrunc_library", (|s: &mut crate::src::EnumSrc| crate::native_misc::trunc_library(s)) as fn(&mut crate::src::EnumSrc)),
         // n(nintro_library, "C17", "Introspect::introspect_len; Introspect::introspect_child for the hand-written impls (collections, maps, sets, Option, Result, Box, Rc, Arc, RefCell, Mutex, RwLock, tuples, arrays, Schema, BitVec, ArrayVec, SmallVec, IndexMap, IndexSet, Range)", "32 value shapes with <= 3 elements (incl. a poisoned std Mutex and a RefCell with a shared borrow outstanding), checked recursively to depth 3, indices 0..len, len..2len+1 and near usize::MAX");
         ("nintro_library", (|s: &mut crate::src::EnumSrc| crate::native_misc::intro_library(s)) as fn(&mut crate::src::EnumSrc)),
-        // n(nintro_navigate, "C17", "Introspector::do_introspect; Introspector::impl_get_frames; IntrospectionResult::total_index; IntrospectionResult::total_len", "3 objects, sequences of <= 3 commands (first 2,000,000 combinations in enumeration order) (Nothing, Up, SelectNth, ExpandElement) with depths/indices from {0,1,2,5,usize::MAX}, with and without child limit");
-        ("nintro_navigate", (|s: &mut crate::src::EnumSrc| crate::native_misc::intro_navigate(s)) as fn(&mut crate::src::EnumSrc)),
+        // n(nintro_navigate0, "C17", "Introspector::do_introspect; Introspector::dive; IntrospectionResult::total_index; IntrospectionResult::total_len", "object: a tuple of vector / option; sequences of <= 3 commands (Nothing, Up, SelectNth, ExpandElement) with depths/indices from {0,1,2,5,usize::MAX}, with and without child limit (first 2,000,000 combinations in enumeration order)");
+        ("nintro_navigate0", (|s: &mut crate::src::EnumSrc| crate::native_misc::intro_navigate::<_, 0>(s)) as fn(&mut crate::src::EnumSrc)),
+        // n(nintro_navigate1, "C17", "Introspector::do_introspect; Introspector::dive; IntrospectionResult::total_index; IntrospectionResult::total_len", "object: a BTreeMap of vectors; sequences of <= 3 commands (Nothing, Up, SelectNth, ExpandElement) with depths/indices from {0,1,2,5,usize::MAX}, with and without child limit (first 2,000,000 combinations in enumeration order)");
+        ("nintro_navigate1", (|s: &mut crate::src::EnumSrc| crate::native_misc::intro_navigate::<_, 1>(s)) as fn(&mut crate::src::EnumSrc)),
+        // n(nintro_navigate2, "C17", "Introspector::do_introspect; Introspector::dive; IntrospectionResult::total_index; IntrospectionResult::total_len", "object: a vector of optional boxed tuples; sequences of <= 3 commands (Nothing, Up, SelectNth, ExpandElement) with depths/indices from {0,1,2,5,usize::MAX}, with and without child limit (first 2,000,000 combinations in enumeration order)");
+        ("nintro_navigate2", (|s: &mut crate::src::EnumSrc| crate::native_misc::intro_navigate::<_, 2>(s)) as fn(&mut crate::src::EnumSrc)),
+        // n(nintro_navigate3, "C17", "Introspector::do_introspect; Introspector::dive; IntrospectionResult::total_index; IntrospectionResult::total_len", "object: a derived struct (SNest); sequences of <= 3 commands (Nothing, Up, SelectNth, ExpandElement) with depths/indices from {0,1,2,5,usize::MAX}, with and without child limit (first 2,000,000 combinations in enumeration order)");
+        ("nintro_navigate3", (|s: &mut crate::src::EnumSrc| crate::native_misc::intro_navigate::<_, 3>(s)) as fn(&mut crate::src::EnumSrc)),
+        // n(nintro_navigate4, "C17", "Introspector::do_introspect; Introspector::dive; IntrospectionResult::total_index; IntrospectionResult::total_len", "object: a derived enum (EData); sequences of <= 3 commands (Nothing, Up, SelectNth, ExpandElement) with depths/indices from {0,1,2,5,usize::MAX}, with and without child limit (first 2,000,000 combinations in enumeration order)");
+        ("nintro_navigate4", (|s: &mut crate::src::EnumSrc| crate::native_misc::intro_navigate::<_, 4>(s)) as fn(&mut crate::src::EnumSrc)),
+        // n(nintro_navigate5, "C17", "Introspector::do_introspect; Introspector::dive; IntrospectionResult::total_index; IntrospectionResult::total_len", "object: a HashMap of tuples; sequences of <= 3 commands (Nothing, Up, SelectNth, ExpandElement) with depths/indices from {0,1,2,5,usize::MAX}, with and without child limit (first 2,000,000 combinations in enumeration order)");
+        ("nintro_navigate5", (|s: &mut crate::src::EnumSrc| crate::native_misc::intro_navigate::<_, 5>(s)) as fn(&mut crate::src::EnumSrc)),
         // n(nabi_pairs, "C09,C10,C11", "AbiConnection::new_internal; AbiConnection::analyze_and_create; arg_layout_compatible; abi_entry_light; savefile_abi_exportable output (caller and callee trampolines, closure wrappers, boxed-closure wrappers); parse_return_value_impl", "one interface in versions 0 and 1 (struct argument and return type gaining a field), 4 caller/implementation combinations x 8 methods (versioned fields first on the wire, so a wrong-version encoding shifts the retained fields) x small-scope argument values");
         ("nabi_pairs", (|s: &mut crate::src::EnumSrc| crate::native_abi::abi_pairs(s)) as fn(&mut crate::src::EnumSrc)),
         // n(nabi_more, "C09,C10", "savefile_abi_exportable output for &str / String / &[T] / Vec / Result / Option / &mut dyn FnMut arguments and returns; FlexBuffer (arguments beyond the inline buffer); AbiConnection::analyze_and_create (method matching by name)", "4 caller/implementation combinations whose traits list the methods in different orders x String lengths 0..70000 x slice lengths 0..5000 x small-scope bytes");
